@@ -61,4 +61,4 @@ Proof. vm_compute. split; reflexivity. Qed.
 
 (* axioms the property theorems of this file depend on (one traversal for all of them) *)
 Definition C15_theorems := (@C15_parse, @C15_extract, @C15_satisfies_expression).
-Print Assumptions C15_theorems.
+Redirect "assumptions/C15" Print Assumptions C15_theorems.
